@@ -310,18 +310,18 @@ Section spec.
       destruct Hv as [[Hx _]|[[Hx _]|[[Hx _]|[Hx _]]]].
       + apply (bus_name_taken s Hinv b B _ HB) in Hx. is_some_none Hx.
       + apply (bus_id_taken s Hinv b B _ HB) in Hx. is_some_none Hx.
-      + destruct Hx as (I1 & m & M & ? & Hin & HM & Hsz). simplify_eq.
+      + destruct Hx as (B0 & HB0 & I1 & m & M & ? & Hin & HM & Hsz). simplify_eq.
         pose proof (flat_map_nil _ _ Herrs m ltac:(by apply elem_of_elements)) as He. cbn in He. rewrite HM in He.
-        unfold addni_msg_err in He. destruct (bus_max_size <? m_size M)%Z eqn:Hlt; [done|]. apply Z.ltb_ge in Hlt. lia.
+        unfold addni_msg_err in He. rewrite Hsz in He. done.
       + destruct Hx as (I1 & m & M & ? & Hin & HM & Hst & Hc). simplify_eq.
         pose proof (flat_map_nil _ _ Herrs m ltac:(by apply elem_of_elements)) as He. cbn in He. rewrite HM in He.
-        unfold addni_msg_err in He. destruct (bus_max_size <? m_size M)%Z; [done|]. rewrite Hst in He.
+        unfold addni_msg_err in He. destruct (too_big B (m_size M)); [done|]. rewrite Hst in He.
         apply (bus_static_taken s Hinv b B _ HB) in Hc. destruct (b_static B !! m_static M); [done|]. is_some_none Hc.
     - cbn. split; [done|]. intros cw Hcw. left. right. exists i, Ii, ND. repeat split; try done. right. right.
       rewrite <- Herrs in Hcw. unfold addni_errs in Hcw. apply elem_of_list_In, in_flat_map in Hcw as (m & Hm%elem_of_list_In & Hcw%elem_of_list_In).
       apply elem_of_elements in Hm. destruct (msgs s !! m) as [M|] eqn:HM; [|by apply not_elem_of_nil in Hcw].
-      unfold addni_msg_err in Hcw. destruct (bus_max_size <? m_size M)%Z eqn:Hlt.
-      + apply elem_of_list_singleton in Hcw as ->. left. split; [|done]. exists Ii, m, M. repeat split; try done. by apply Z.ltb_lt.
+      unfold addni_msg_err in Hcw. destruct (too_big B (m_size M)) eqn:Hlt.
+      + apply elem_of_list_singleton in Hcw as ->. left. split; [|done]. exists B. split; [done|]. exists Ii, m, M. repeat split; done.
       + destruct (m_hasStatic M) eqn:Hst; [|by apply not_elem_of_nil in Hcw].
         destruct (b_static B !! m_static M) eqn:Hbs; [|by apply not_elem_of_nil in Hcw].
         apply elem_of_list_singleton in Hcw as ->. right. split; [|done]. exists Ii, m, M. repeat split; try done.
@@ -431,11 +431,12 @@ Section spec.
     destruct (i_sentNames Ii !! m_name M) eqn:Hnm.
     { err1. left. right. exists m, M, Ii. repeat split; try done. left. split; [|done].
       apply (iface_name_taken s Hinv i Ii _ HI). eauto. }
-    destruct (bool_decide (is_Some (i_parent Ii)) && (bus_max_size <? m_size M)%Z) eqn:Hsz.
-    { apply andb_true_iff in Hsz as [Hp%bool_decide_eq_true Hlt%Z.ltb_lt].
-      err1. left. right. exists m, M, Ii. repeat split; try done. right. left. done. }
-    assert (¬ (is_Some (i_parent Ii) ∧ (bus_max_size < m_size M)%Z)) as Hnsz.
-    { intros [Hp Hlt]. apply andb_false_iff in Hsz as [Hx%bool_decide_eq_false|Hx%Z.ltb_ge]; [done|lia]. }
+    destruct (parent_bus_too_big s (i_parent Ii) (m_size M)) eqn:Hsz.
+    { unfold parent_bus_too_big in Hsz. destruct (i_parent Ii) as [b|] eqn:Hp; [|done].
+      destruct (buses s !! b) as [B|] eqn:HB; [|done].
+      err1. left. right. exists m, M, Ii. repeat split; try done. right. left. split; [|done]. by exists b, B. }
+    assert (¬ (∃ b B, i_parent Ii = Some b ∧ buses s !! b = Some B ∧ too_big B (m_size M) = true)) as Hnsz.
+    { intros (b & B & Hp & HB & Hlt). unfold parent_bus_too_big in Hsz. rewrite Hp, HB in Hsz. congruence. }
     destruct (m_hasStatic M) eqn:Hst.
     - destruct (i_sentStatic Ii !! m_static M) eqn:Hss.
       { err1. left. right. exists m, M, Ii. repeat split; try done. right. right. left. repeat split; try done.
@@ -445,9 +446,9 @@ Section spec.
         err1. left. right. exists m, M, Ii. repeat split; try done. right. right. right. left. done. }
       okc; [split; [eauto|intros ? [= <-]; eauto]|].
       intros cw [[? _]|(m0 & M0 & I0 & ? & ? & ? & Hv)]; [done|]. simplify_eq.
-      destruct Hv as [[Hx _]|[(? & ? & _)|[(_ & Hx & _)|[(_ & Hx & _)|(? & _)]]]].
+      destruct Hv as [[Hx _]|[[Hsz2 _]|[(_ & Hx & _)|[(_ & Hx & _)|(? & _)]]]].
       + apply (iface_name_taken s Hinv i Ii _ HI) in Hx. is_some_none Hx.
-      + by apply Hnsz.
+      + exact (Hnsz Hsz2).
       + apply (iface_static_taken s Hinv i Ii _ HI) in Hx. is_some_none Hx.
       + apply (parent_static_taken _ _ Hpb) in Hx. congruence.
       + congruence.
@@ -456,9 +457,8 @@ Section spec.
         apply (iface_id_taken s Hinv i Ii _ HI). eauto. }
       okc; [split; [eauto|intros ? [= <-]; eauto]|].
       intros cw [[? _]|(m0 & M0 & I0 & ? & ? & ? & Hv)]; [done|]. simplify_eq.
-      destruct Hv as [[Hx _]|[(? & ? & _)|[(? & _)|[(? & _)|(_ & Hx & _)]]]]; try congruence.
+      destruct Hv as [[Hx _]|[[Hsz2 _]|[(? & _)|[(? & _)|(_ & Hx & _)]]]]; try congruence.
       + apply (iface_name_taken s Hinv i Ii _ HI) in Hx. is_some_none Hx.
-      + by apply Hnsz.
       + apply (iface_id_taken s Hinv i Ii _ HI) in Hx. is_some_none Hx.
   Qed.
 
